@@ -450,6 +450,10 @@ def in_format_domain(fmt, tree):
             for k, x in v.items():
                 if not isinstance(k, str):
                     return False
+                try:
+                    k.encode("utf-8")
+                except UnicodeEncodeError:
+                    return False          # a lone surrogate in a key: no document format can carry it
                 if fmt == "xml" and not _XML_NAME.match(k):
                     return False
                 if fmt == "bson" and ("\x00" in k or k.startswith("$") or "." in k):
